@@ -8,3 +8,19 @@ reg("C18", "^TestC18$", q=(3000, 1, 300), t=(20000, 16, 1500),
          "All N<=3 (thorough 4) windows exhaustively plus random large parameters.",
     note="Trusted: the 15-line integer specification in c18_test.go; duplicate-block barrier assumes a repeated block is a no-op (it is part of the property: at most one event per epoch).",
     design="§3 C18")
+
+reg("C19", "^TestC19$", q=(4000, 1, 300), t=(40000, 16, 1500), fuzz=("FuzzC19", 120),
+    technique="property-based testing: exhaustive boundary triples + rapid random triples + native coverage-guided fuzzing, oracle = big-int bit-layout formula and cross-carrier equality",
+    text="Exploration: encoder/decoder compared with the contract's bit layout; the same value is read back from every carrier "
+         "(certificate exit, PP/FEP commitments, Agglayer wire message and prover request through aggkit's real gRPC clients over "
+         "a unix socket, optimistic commitment). 162 boundary triples exhaustively, thousands at random, native fuzzing in thorough.",
+    note="Trusted: ref.GlobalIndex (3 lines of big-int arithmetic), protobuf/grpc libraries. Non-canonical on-chain values (bits above 64, rollup bits with the flag set) are outside the stated domain.",
+    design="§3 C19")
+
+reg("C17", "^TestC17$", q=(4000, 1, 300), t=(50000, 16, 1800),
+    technique="property-based testing: rapid-generated event layouts and limits against a maximal-prefix / sub-sequence specification; exhaustive endpoint pairs + random pairs for Gap against big-int arithmetic",
+    text="Exploration: the exported pure entry points (GetCertificateBuildParamsInternal->limitCertSize, Range, AdaptCertificate, Gap) "
+         "are fed generated layouts/limits and compared with an executable specification (same first block, largest permitted "
+         "last block, exactly the events of the kept blocks in order; big-int gap).",
+    note="Trusted: EstimatedSize as the definition of size (its monotonicity is checked); refusals of the last-block limiter are accepted as policy, only wrong cuts are violations.",
+    design="§3 C17")
